@@ -394,6 +394,7 @@ class ShadowModule:
         ns = dict(vars(self.real))
         ns["__builtins__"] = SHADOW_BUILTINS
         ns["__pv"] = world.rt
+        ns["__pv_super"] = lambda clsname, obj: _Super(world, self.modname, clsname, obj)
         self.ns = ns
         self.funcs = {}
         # numpy and its elementwise functions
@@ -441,6 +442,13 @@ class ShadowModule:
     def _compile(self, node, qual):
         w = self.world
         node = copy.deepcopy(node)
+        if "." in qual and node.args.args:
+            # zero-argument super() needs a class cell; rewritten to an explicit MRO-successor lookup
+            clsname, first = qual.split(".")[0], node.args.args[0].arg
+            for x in ast.walk(node):
+                if isinstance(x, ast.Call) and isinstance(x.func, ast.Name) and x.func.id == "super" and not x.args:
+                    x.func = ast.Name("__pv_super", ast.Load())
+                    x.args = [ast.Constant(clsname), ast.Name(first, ast.Load())]
         # decorators are applied by Obj/ClsObj (property, classmethod, staticmethod); memoize dropped (S9)
         node.decorator_list = []
         prefix = f"{self.modname}:{qual}#"
@@ -508,10 +516,33 @@ class ShadowModule:
         return None
 
 
-def _class_lookup(world, real_cls, name):
+class _Super:
+    """super() stand-in: resolves along the real MRO after `clsname`, in the shadow sources"""
+
+    def __init__(self, world, modname, clsname, obj):
+        object.__setattr__(self, "_s", (world, obj, getattr(importlib.import_module(modname), clsname)))
+
+    def __getattribute__(self, name):
+        w, obj, after = object.__getattribute__(self, "_s")
+        real = object.__getattribute__(obj, "__dict__")["_pv_real"] if isinstance(obj, Obj) else obj._pv_real
+        hit = _class_lookup(w, real, name, after=after)
+        if hit is None:
+            if name == "__init__":
+                return lambda *a, **k: None
+            raise AttributeError(name)
+        kind, fn, _ = hit
+        if kind == "staticmethod":
+            return fn
+        return types.MethodType(fn, obj)
+
+
+def _class_lookup(world, real_cls, name, after=None):
     """find `name` along real_cls.__mro__ in the *source* of each class; returns
     (kind, getter_fn, setter_fn) with kind in method|classmethod|staticmethod|property, or None"""
-    for klass in real_cls.__mro__:
+    mro = list(real_cls.__mro__)
+    if after is not None:
+        mro = mro[mro.index(after) + 1:]
+    for klass in mro:
         modname = getattr(klass, "__module__", "")
         if not modname.startswith("beyond"):
             continue
@@ -620,6 +651,13 @@ class ClsObj:
     @property
     def __name__(self):
         return self._pv_real.__name__
+
+    def __call__(self, *a, **k):
+        o = Obj(self._pv_world, self._pv_real)
+        hit = _class_lookup(self._pv_world, self._pv_real, "__init__")
+        if hit is not None:
+            hit[1](o, *a, **k)
+        return o
 
     def __eq__(self, o):
         return isinstance(o, ClsObj) and o._pv_real is self._pv_real or o is self._pv_real
